@@ -43,11 +43,11 @@ Proof.
          specialize (H a ltac:(cbn; tauto)); cbn [optional orb] in H; destruct (step F f s a); done end.
 Qed.
 
-Lemma C16_refuted_now : ~ C16_statement facts_now.
+Lemma C16_refuted_now : ~ C16_statement facts_unrepaired.
 Proof.
   intros H.
-  destruct (run facts_now f100 (init facts_now [1] false) c16_witness) as [s|] eqn:Hr; [|by vm_compute in Hr].
-  assert (Hv : (dropped s, terminal_silentb facts_now f100 s, released s) = (true, true, false)).
+  destruct (run facts_unrepaired f100 (init facts_unrepaired [1] false) c16_witness) as [s|] eqn:Hr; [|by vm_compute in Hr].
+  assert (Hv : (dropped s, terminal_silentb facts_unrepaired f100 s, released s) = (true, true, false)).
   { vm_compute in Hr. injection Hr as <-. vm_compute. reflexivity. }
   injection Hv as Hd Ht Hrel.
   destruct (H f100 [1] false c16_witness s Hr Hd (terminal_silentb_sound _ _ _ Ht)) as [_ H2]. congruence.
@@ -55,12 +55,12 @@ Qed.
 
 (* the witness state in full: poll_fn still Some, a live waker registered with the silent input *)
 Lemma C16_refuted_now_detail :
-  exists s, run facts_now f100 (init facts_now [1] false) c16_witness = Some s /\
-            dropped s = true /\ terminal_silent facts_now f100 s /\
+  exists s, run facts_unrepaired f100 (init facts_unrepaired [1] false) c16_witness = Some s /\
+            dropped s = true /\ terminal_silent facts_unrepaired f100 s /\
             s.(strong_held) = false /\ s.(poll_fn) = true /\ s.(inp_waker) = Some 0 /\ is_live s 0 = true /\
             released s = false.
 Proof.
-  destruct (run facts_now f100 (init facts_now [1] false) c16_witness) as [s|] eqn:Hr; [|by vm_compute in Hr].
+  destruct (run facts_unrepaired f100 (init facts_unrepaired [1] false) c16_witness) as [s|] eqn:Hr; [|by vm_compute in Hr].
   exists s. split; [done|]. vm_compute in Hr. injection Hr as <-.
   split_and!; try (vm_compute; reflexivity). apply terminal_silentb_sound. vm_compute. reflexivity.
 Qed.
